@@ -67,6 +67,7 @@ func runC12(c *Ctx, r *Run) {
 	r.Rule("RANGE-1", "EncWithNonce: bound = N >> 1 from the key's own modulus, refusal exactly on greater, before any use of the plaintext")
 	r.Rule("SYM-1", "signed plaintext in, symmetric residue out: ExpI on m; Dec ends in SetModSymmetric(·, N)")
 	r.Rule("CRT-1", "Modulus.Exp/ExpI: fallback branch on the same modulus; signed exponent = |e| then conditional inverse selected by IsNegative")
+	r.Rule("HOM-1", "Ciphertext.Mul/Add use their operands as given: c^k mod N² with the caller's k, c·c' mod N²")
 	r.Rule("MTA-1", "newMta / ProveAffG / ProveAffP: keys, clone, operands and the sign of beta have their protocol roles")
 	r.Rule("ALIAS-P", "in-place ciphertext operations only on fresh ciphertexts")
 
@@ -327,6 +328,49 @@ func runC12(c *Ctx, r *Run) {
 			r.Check("CRT-1", name+"|two-half-exponentiations", c.Pos(fn.Pos()), halves == 2, "the CRT path exponentiates modulo p and modulo q", fmt.Sprintf("%d exponentiations modulo a prime factor found", halves))
 		}
 	}
+
+	// ---- HOM-1: the homomorphic operations apply their operands as given
+	if mul := c.LookupMethod("pkg/paillier", "Ciphertext", "Mul"); mul != nil {
+		name := c.FuncName(mul)
+		r.Analysed(name)
+		ok, why := false, "no ExpI call"
+		for _, call := range callsNamed(mul, "ExpI") {
+			a := argsOf(call)
+			if len(a) != 2 {
+				continue
+			}
+			base := strings.HasSuffix(path(a[0]), ".c") && strings.HasPrefix(path(a[0]), mul.Params[0].Name())
+			exp := a[1] == ssa.Value(mul.Params[2])
+			mod := strings.HasSuffix(path(recvOf(call)), ".nSquared")
+			ok = base && exp && mod
+			why = fmt.Sprintf("base is the receiver's value: %v, exponent is the scalar parameter itself: %v (it is %s), modulus N²: %v", base, exp, path(a[1]), mod)
+		}
+		r.Check("HOM-1", name+"|c^k mod N²", c.Pos(mul.Pos()), ok, "k ⊙ ct is ct.c raised to the scalar k as given (signed, any size), modulo N²",
+			why+": the scalar is transformed (truncated, reduced, made absolute) before the exponentiation, so k ⊙ Enc(m) differs from Enc(k·m) for the scalars the transformation changes")
+	} else {
+		r.Unresolved("HOM-1", "pkg/paillier.(*Ciphertext).Mul")
+	}
+	if add := c.LookupMethod("pkg/paillier", "Ciphertext", "Add"); add != nil {
+		name := c.FuncName(add)
+		r.Analysed(name)
+		ok := false
+		for _, call := range callsNamed(add, "ModMul") {
+			a := argsOf(call)
+			if len(a) != 3 {
+				continue
+			}
+			p0, p1 := path(a[0]), path(a[1])
+			own := add.Params[0].Name() + ".c"
+			other := add.Params[2].Name() + ".c"
+			if ((p0 == own && p1 == other) || (p0 == other && p1 == own)) && strings.HasSuffix(path(a[2]), ".nSquared.Modulus") && path(recvOf(call)) == own {
+				ok = true
+			}
+		}
+		r.Check("HOM-1", name+"|c·c' mod N²", c.Pos(add.Pos()), ok, "ct ⊕ ct' multiplies the two ciphertext values modulo N² into the receiver", "Add is not ct.c.ModMul(ct.c, ct2.c, N²)")
+	} else {
+		r.Unresolved("HOM-1", "pkg/paillier.(*Ciphertext).Add")
+	}
+	r.Require("HOM-1", 2)
 
 	checkMtaRoles(c, r)
 	checkCiphertextAlias(c, r)
